@@ -36,6 +36,11 @@ class SymInt:
     def __mul__(self, o): return SymInt(self.e * iv(o))
     __rmul__ = __mul__
     def __neg__(self): return SymInt(-self.e)
+    def __floordiv__(self, o): return _divmod(self.e, iv(o))[0]
+    def __rfloordiv__(self, o): return _divmod(iv(o), self.e)[0]
+    def __mod__(self, o): return _divmod(self.e, iv(o))[1]
+    def __rmod__(self, o): return _divmod(iv(o), self.e)[1]
+    def __divmod__(self, o): return _divmod(self.e, iv(o))
     def __lt__(self, o): return SymBool(self.e < iv(o))
     def __le__(self, o): return SymBool(self.e <= iv(o))
     def __gt__(self, o): return SymBool(self.e > iv(o))
@@ -47,6 +52,19 @@ class SymInt:
     def __repr__(self): return '<%s>' % z3.simplify(self.e)
     __str__ = __repr__
     def __format__(self, spec): return repr(self)
+
+
+_DIVS = [0]
+
+
+def _divmod(a, b):
+    """python floor division of integers: a == q*b + r with r between 0 and b (sign of b); b == 0 raises (the path forks on it)"""
+    if bool(SymBool(b == 0)):
+        raise ZeroDivisionError('integer division or modulo by zero')
+    _DIVS[0] += 1
+    q = z3.Int('fq!%d' % _DIVS[0]); r = z3.Int('fr!%d' % _DIVS[0])
+    engp.CTX.axioms += [a == q * b + r, z3.If(b > 0, z3.And(r >= 0, r < b), z3.And(r <= 0, r > b))]
+    return SymInt(q), SymInt(r)
 
 
 class SymRange:
@@ -95,6 +113,10 @@ class NPI:
         return getattr(np, k)
 
     def arange(self, n, *a):
+        if len(a) == 1 and (isinstance(n, SymInt) or isinstance(a[0], SymInt)):
+            # arange(start, stop): start .. stop-1, empty when stop <= start
+            st = iv(n); en = iv(a[0])
+            return SymRange(SymInt(st), SymInt(z3.If(en >= st, en, st)))
         if a or not isinstance(n, SymInt):
             return np.arange(n, *a)
         engp.CTX.domain.append(('arange(n): n >= 0', n.e >= 0))
@@ -418,7 +440,13 @@ def run(tier):
         from vf import pybuild
         pybuild.activate()
         from hydrodiy.io import hyruns as H
-        obls, npaths = batch_obligations(H)
+        obls = []; npaths = 0
+        try:
+            obls, npaths = batch_obligations(H)
+        except (engp.Unsupported, engp.PathLimit, TypeError, AttributeError, NotImplementedError) as e:
+            # the code under analysis uses a construct the symbolic executor does not support (e.g. after a change of the code): undecided,
+            # not a crash; the bounded monitors below still run
+            r.undecided.append('Engine P cannot execute the current get_batch symbolically: %s: %s' % (type(e).__name__, str(e)[:300]))
         numpy_contract_crosscheck(r, tier)
         from vf import child
         DD = child.Distinct().wrap(H, 'get_batch')
@@ -427,12 +455,10 @@ def run(tier):
         finally:
             DD.restore()
         mon_options(H, r, tier)
-        pproof.discharge(r, obls, replay=replay_batch(H), file=FILE, fn_of=lambda ob: 'get_batch')
+        if obls:
+            pproof.discharge(r, obls, replay=replay_batch(H), file=FILE, fn_of=lambda ob: 'get_batch')
         r.functions = [dict(file='hyruns.py', fn='get_batch', trusted=['numpy.arange', 'numpy.array_split'], nonterminating=[], cutloops=0, unrolled=0, terminating=1)]
         r.extra['paths_explored'] = npaths
-    except (engp.Unsupported, engp.PathLimit) as e:
-        # the code under analysis uses a construct the symbolic executor does not support (e.g. after a change of the code): undecided, not a crash
-        r.undecided.append('Engine P cannot execute the current code symbolically: %s' % (str(e)[:300],))
     except Exception:
         r.broken.append('C19 driver crashed: ' + traceback.format_exc()[-2500:])
     r.assumptions += ['numpy.arange / numpy.array_split: ASSUMED contract (sections of size n div N + 1 for the first n mod N sections, n div N after, contiguous, in order), cross-checked against the installed numpy for n < 120 (400 thorough)',
